@@ -718,11 +718,14 @@ class Engine(object):
         pc.assume(z3.ForAll([k], z3.Implies(z3.And(0 <= k, k < toI(a.n)), z3.Select(new, k) == t)))
         return st.alloc(new, a.n, "copy@%d" % node.lineno)
 
-    def _elems(self, a, st):
+    def _elems(self, a, st, pc=None):
         if isinstance(a, (list, tuple)):
             return list(a)
         if isinstance(a, (ArrV, LazyArr)):
             if not isinstance(a.n, int):
+                from .harness import entailed
+                if pc is not None and entailed(pc.hyp(), cmp('==', a.n, 0), 2000):
+                    return []
                 raise Unsupported("symbolic length")
             return [st.elem(a, k) for k in range(a.n)]
         return [a]
@@ -746,7 +749,7 @@ class Engine(object):
         return st.alloc(vals, len(vals), "append@%d" % node.lineno)
 
     def bi_np_insert(self, args, kw, st, pc, node):
-        base, idx, new = self._elems(args[0], st), args[1], self._elems(args[2], st)
+        base, idx, new = self._elems(args[0], st, pc), args[1], self._elems(args[2], st, pc)
         if not isinstance(idx, int):
             raise Unsupported("np.insert at symbolic position")
         vals = base[:idx] + new + base[idx:]
